@@ -102,7 +102,16 @@ func runC09(c *Ctx) {
 	// listing dominated by visited == false
 	okDom := false
 	for _, cd := range core.CondsAt(listing.Block()) {
-		if core.ValueOrigin(cd.V) == gateVisited && !cd.True {
+		// strip negations: !(!visited) etc.
+		v, truth := core.ValueOrigin(cd.V), cd.True
+		for i := 0; i < 4; i++ {
+			u, ok := v.(*ssa.UnOp)
+			if !ok || u.Op != token.NOT {
+				break
+			}
+			v, truth = core.ValueOrigin(u.X), !truth
+		}
+		if v == gateVisited && !truth {
 			okDom = true
 		}
 	}
@@ -149,6 +158,9 @@ func runC09(c *Ctx) {
 		ia, ok := elem.X.(*ssa.IndexAddr)
 		if !ok {
 			return false
+		}
+		if _, isConst := ia.Index.(*ssa.Const); isConst {
+			return false // a fixed element of the listing, not the tuple of this iteration
 		}
 		root := sliceRoot(ia.X)
 		return root == ssa.Value(listing) || core.ValueOrigin(ia.X) == listRes
